@@ -225,7 +225,25 @@ func Load(goos string, overlay map[string][]byte, patterns ...string) (*Prog, er
 	}
 	sort.Slice(p.allFns, func(i, j int) bool { return fnKey(p.allFns[i]) < fnKey(p.allFns[j]) })
 	p.nfuncs = len(p.allFns)
+	activeProg = p
 	return p, nil
+}
+
+// activeProg: the program loaded last (what the rendering helpers that need a whole-package view use).
+var activeProg *Prog
+
+// allFnsWithInit: the source functions of one package plus its initialiser.
+func (p *Prog) allFnsWithInit(pkg *ssa.Package) []*ssa.Function {
+	var out []*ssa.Function
+	for _, fn := range p.allFns {
+		if fnPkg(fn) == pkg.Pkg {
+			out = append(out, fn)
+		}
+	}
+	if ini := pkg.Func("init"); ini != nil {
+		out = append(out, withAnon(ini)...)
+	}
+	return out
 }
 
 func (p *Prog) firstParty(fn *ssa.Function) bool {
